@@ -162,7 +162,7 @@ class Exec(ExprMixin, StmtMixin, CallMixin, ContractMixin):
             raise Unsupported("internal: raise as value")
         try:
             if isinstance(decl.returns, Ty) and not isinstance(decl.returns, TNone):
-                result = coerce(result, decl.returns)
+                result = self.narrow(st, result, decl.returns, None, "return-value")
             elif isinstance(decl.returns, TNone) and not (isinstance(result, Val) and isinstance(result.ty, TNone)):
                 raise TypeError("returns a value, contract says None")
         except TypeError as e:
@@ -190,8 +190,12 @@ class Exec(ExprMixin, StmtMixin, CallMixin, ContractMixin):
 
     def check_frame(self, ci, st, on_raise=False):
         old = ci.old
+        if on_raise and any(w is None for (_, w, _, _) in ci.raises):
+            return      # a contract with an unconditional `raises` clause says nothing about the state after a failure
         for key in sorted(st.written):
             owner, field = key
+            if key in ci.modifies_any:
+                continue
             fty = dsl.REG.classes[owner].fields[field]
             new = st.heap[key]
             _, oldarrs = self.heap_arrays(old, owner, field, fty)
